@@ -138,7 +138,7 @@ def _tlc_cmd(spec, cfg, extra, workers, heap=None, deque=False):
     java.append("-Xss64m")
     if deque:
         java.append("-Dtlc2.tool.queue.IStateQueue=StateDeque")
-    return java + ["-cp", TLC_JAR, "tlc2.TLC", "-workers", str(workers), "-config", cfg] + extra + [spec]
+    return java + ["-cp", TLC_JAR, "tlc2.TLC", "-noGenerateSpecTE", "-workers", str(workers), "-config", cfg] + extra + [spec]
 
 
 def run_tlc(spec, cfg, scratch, workers="auto", extra=(), env=None, timeout=1200, heap=None, cwd=None, deque=False):
@@ -181,6 +181,17 @@ def model_check(spec, cfg, scratch, workers="auto", timeout=1200, extra=(), env=
     log("[tlc] %s/%s: %d distinct states, %d generated, depth %d, %.1fs" % (spec, cfg, st["distinct"], st["generated"], st["depth"], wall))
     st["out"] = out
     return st
+
+
+def model_counterexample(spec, cfg, inv, scratch, workers="auto", timeout=1200, heap=None):
+    """run a configuration that models a (repaired or recorded) defect faithfully and REQUIRE that TLC finds the
+    violation of `inv` - evidence that the specification is sharp enough to exhibit the defect."""
+    rc, out, wall = run_tlc(spec, cfg, scratch, workers=workers, timeout=timeout, heap=heap)
+    if ("Invariant %s is violated" % inv) not in out:
+        raise Infra("expected TLC to find a violation of %s in %s/%s, it did not:\n%s" % (inv, spec, cfg, out[-3000:]))
+    st = parse_tlc_stats(out)
+    log("[tlc] %s/%s: counterexample to %s found as expected (%d states generated, %.1fs)" % (spec, cfg, inv, st["generated"], wall))
+    return dict(spec=spec, cfg=cfg, invariant=inv, states_generated=st["generated"], wall_s=round(wall, 1))
 
 
 def tlc_print_lines(out, tag):
